@@ -39,6 +39,32 @@ _EFFECTS_CACHE: Dict[int, Effects] = {}
 
 
 
+class FalsyLimit(Exception):
+    pass
+
+
+def minmax_conjunct(t: ast.AST) -> Optional[ast.AST]:
+    """The `min_iter > max_iter` comparison when the test `t` is that comparison, alone or guarded by `max_iter is not None`
+    (an open-ended limit has nothing to compare).  Raises FalsyLimit when the guard is the truth value of the limit
+    instead (`max_iter and min_iter > max_iter`): 0 is a legal limit and would skip the check."""
+    want = cmp_of(expr('min_iter > max_iter')).as_int()
+    atoms = list(t.values) if isinstance(t, ast.BoolOp) and isinstance(t.op, ast.And) else [t]
+    hit = [a for a in atoms if cmp_of(a) is not None and cmp_of(a).as_int() == want]
+    if len(hit) != 1:
+        return None
+    for a in atoms:
+        if a is hit[0]:
+            continue
+        ta = text(a)
+        if ta in ('max_iter is not None', 'min_iter is not None', 'None is not max_iter'):
+            continue
+        if isinstance(a, ast.Name) and a.id in ('max_iter', 'min_iter'):
+            raise FalsyLimit(f'`{text(t)}` compares the limits only when `{a.id}` is truthy: {a.id}=0 is a legal setting (run no pass) and skips the check, so '
+                             f'min_iter=1, max_iter=0 is not rejected')
+        return None
+    return hit[0]
+
+
 def _demorgan_quantifiers(e: ast.AST) -> ast.AST:
     """`not any(not P for ...)` is `all(P for ...)`; `not all(not P for ...)` is `any(P for ...)`."""
     import copy as _copy
@@ -338,7 +364,7 @@ class SolverShape:
 
     def minmax_test(self) -> Node:
         want = cmp_of(expr('min_iter > max_iter'))
-        c = [n for n in self.tests() if cmp_of(n.ast) is not None and cmp_of(n.ast).as_int() == want.as_int()]
+        c = [n for n in self.tests() if minmax_conjunct(n.ast) is not None]
         if len(c) != 1:
             raise AnchorMissing(f'{self.q}: `min_iter > max_iter` test: found {len(c)}')
         return c[0]
